@@ -29,6 +29,7 @@ K_FIXED_OFFSET, K_START_POS, K_FULLWORD_LEN, K_GLOBAL_REFS, K_LIST_UNDEF, K_HIGH
     10, 11, 12, 13, 14, 15, 16
 K_EMPTY_CLASS = 17
 K_SPAN_PANIC = 18
+K_ALT_FIRST = 19
 
 
 # ------------------------------------------------------------------ printing
@@ -830,7 +831,8 @@ class C07(Prop):
     NEEDS_HARNESS = False          # own crate (harness_yara), built in execute()
     KF = {K_FIXED_OFFSET: "C07-fixed-offset-listing", K_START_POS: "C07-start-position", K_FULLWORD_LEN: "C07-fullword-single-length",
           K_GLOBAL_REFS: "C07-global-refs-ordinary", K_LIST_UNDEF: "C07-list-undefined-element",
-          K_HIGH_BYTE_ORDER: "C07-string-order-high-bytes", K_UNDEF_QUANT: "C07-undefined-quantifier"}
+          K_HIGH_BYTE_ORDER: "C07-string-order-high-bytes", K_UNDEF_QUANT: "C07-undefined-quantifier",
+          K_ALT_FIRST: "C07-hex-alt-first-uneven"}
     # classes 17 (C07-empty-class, fixed 861b829) and 18 (C07-regex-span-panic, fixed c526a27) are no longer produced
     RULE = ("generated rule files of the shared dialect: 1-4 rules over 1-2 namespaces (global / private / plain, "
             "references to earlier rules and to global rules), 0-3 strings per rule drawn from the C01 text generator "
